@@ -19,7 +19,8 @@ META = {
     "trusted_base": [
         "deserialize returns a fresh message with a packet id; message handlers may raise; region lookup returns a region with a circuit",
         "Circuit.send_acks: assumed to emit one PacketAck with the given ids (bounded tier checks the wire)",
-        "Circuit.collect_acks / resend_unacked (dict of futures, datetime): bounded tier only",
+        "Circuit.resend_unacked: per-entry obligations proved (contract shared with C05) with the clock comparison as an external; "
+        "when a send is due in wall-clock terms (interval, gaps of any length) is bounded tier only",
         "dedupe window of 1000 ids: a retransmission arriving after 1000 newer reliable packets is delivered again (stated limit of the code)",
     ],
 }
